@@ -302,8 +302,9 @@ impl Visit for Idents {
         swc::ImportSpecifier::Default(x) => &x.local,
         swc::ImportSpecifier::Namespace(x) => &x.local,
       };
+      // the imported binding itself is not eligible (renaming it would change what is imported); another binding that
+      // merely has its spelling is
       self.excluded_ids.insert(Self::id(local));
-      self.excluded_names.insert(local.sym.to_string());
       if let swc::ImportSpecifier::Named(swc::ImportNamedSpecifier { imported: Some(swc::ModuleExportName::Ident(i)), .. }) = s {
         self.excluded_names.insert(i.sym.to_string());
       }
@@ -486,6 +487,9 @@ fn run_c20(out: &mut Out, rng: &mut Rng, count: usize) {
     let mut crng = rng.fork();
     let (rule, src) = if case_no % 5 == 0 {
       ("own".to_string(), own[(case_no / 5) % own.len()].to_string())
+    } else if case_no % 10 == 6 {
+      // import / use / export programs (TypeScript modules): imported names are bindings too, and get shadowed below
+      ("verbatim-module-syntax".to_string(), crate::d_scan::gen_verbatim_program(&mut crng))
     } else if case_no % 5 == 1 {
       crate::d_scan::gen_program(&mut crng, &corpus)
     } else {
@@ -495,12 +499,16 @@ fn run_c20(out: &mut Out, rng: &mut Rng, count: usize) {
     // shadow injection: a same-spelled binding of another kind (var / function / class / parameter), assigned in a
     // nested scope, is appended for one of the program's own declared names — the situation in which a table keyed on
     // the spelling confuses two bindings
-    let src = if case_no % 5 >= 2 && crng.chance(1, 2) {
+    let src = if (case_no % 5 >= 2 && crng.chance(1, 2)) || case_no % 10 == 6 {
       let names: Vec<String> = {
         let mut v = vec![];
         for w in src.split(|c: char| !(c.is_alphanumeric() || c == '_' || c == '$')) {
           if w.len() >= 2 && w.chars().next().map_or(false, |c| c.is_ascii_alphabetic()) && !RESERVED.contains(&w) && !is_keywordish(w) && !hook_like(w) {
-            let decl = ["let ", "const ", "var ", "function ", "class "].iter().any(|k| src.contains(&format!("{}{}", k, w)));
+            let decl = ["let ", "const ", "var ", "function ", "class "].iter().any(|k| src.contains(&format!("{}{}", k, w)))
+              || (src.contains("import ")
+                && [format!("import {} ", w), format!("import {},", w), format!("{{ {},", w), format!("{{ {} }}", w), format!(", {} }}", w), format!("* as {} ", w), format!("type {} }}", w), format!("type {},", w), format!(" as {} }}", w)]
+                  .iter()
+                  .any(|pat| src.contains(pat.as_str())));
             if decl && !v.contains(&w.to_string()) {
               v.push(w.to_string());
             }
@@ -901,6 +909,265 @@ fn run_corr(out: &mut Out, rng: &mut Rng, count: usize) {
   }
 }
 
+// ------------------------------------------------------------------------------- M-SCOPE2 correspondence
+/// the richer model language (`DL.Scope2`): `var` hoisting, named function expressions, catch parameters, loop-head
+/// bindings.  Same comparison as above: partition of occurrences, scope-analysis presence, no-console reports, rename.
+#[derive(Clone, Debug)]
+enum M2 {
+  Ref(usize),
+  Key(usize),
+  Let(usize),
+  Var(usize),
+  Block(usize, Vec<M2>),
+  Func(usize, Option<usize>, Vec<usize>, Vec<M2>),
+  Catch(usize, Option<usize>, Vec<M2>),
+  ForLet(usize, usize, Vec<M2>),
+}
+fn m2_lets(is: &[M2]) -> Vec<usize> {
+  is.iter().filter_map(|i| if let M2::Let(x) = i { Some(*x) } else { None }).collect()
+}
+fn m2_vars(is: &[M2]) -> Vec<usize> {
+  let mut v = vec![];
+  for i in is {
+    match i {
+      M2::Var(x) => v.push(*x),
+      M2::Block(_, b) | M2::Catch(_, _, b) | M2::ForLet(_, _, b) => v.extend(m2_vars(b)),
+      _ => {}
+    }
+  }
+  v
+}
+fn nodup(v: &[usize]) -> bool {
+  v.iter().enumerate().all(|(i, x)| !v[..i].contains(x))
+}
+fn disj(a: &[usize], b: &[usize]) -> bool {
+  a.iter().all(|x| !b.contains(x))
+}
+/// the early-error rules the model calls `WF`
+fn m2_wf(is: &[M2]) -> bool {
+  is.iter().all(|i| match i {
+    M2::Block(_, b) => nodup(&m2_lets(b)) && disj(&m2_lets(b), &m2_vars(b)) && m2_wf(b),
+    M2::Func(_, _, ps, b) => nodup(&m2_lets(b)) && disj(ps, &m2_lets(b)) && disj(&m2_lets(b), &m2_vars(b)) && nodup(ps) && m2_wf(b),
+    M2::Catch(_, p, b) => {
+      let mut f: Vec<usize> = p.iter().cloned().collect();
+      f.extend(m2_lets(b));
+      nodup(&f) && disj(&f, &m2_vars(b)) && m2_wf(b)
+    }
+    M2::ForLet(_, x, b) => {
+      let mut f = vec![*x];
+      f.extend(m2_lets(b));
+      nodup(&m2_lets(b)) && disj(&f, &m2_vars(b)) && m2_wf(b)
+    }
+    _ => true,
+  })
+}
+fn gen2(rng: &mut Rng, depth: usize, next_id: &mut usize, budget: &mut usize) -> Vec<M2> {
+  let n = 2 + rng.below(6);
+  let mut out = vec![];
+  for _ in 0..n {
+    if *budget == 0 {
+      break;
+    }
+    *budget -= 1;
+    let k = rng.below(POOL.len());
+    let id = *next_id;
+    match rng.below(14) {
+      0..=3 => out.push(M2::Ref(k)),
+      4 => out.push(M2::Key(k)),
+      5 | 6 => out.push(M2::Let(k)),
+      7 | 8 => out.push(M2::Var(k)),
+      9 if depth < 4 => {
+        *next_id += 1;
+        out.push(M2::Block(id, gen2(rng, depth + 1, next_id, budget)));
+      }
+      10 | 11 if depth < 4 => {
+        *next_id += 1;
+        let name = if rng.chance(1, 3) { Some(rng.below(POOL.len())) } else { None };
+        let mut ps = vec![];
+        for _ in 0..rng.below(3) {
+          let p = rng.below(POOL.len());
+          if !ps.contains(&p) {
+            ps.push(p);
+          }
+        }
+        out.push(M2::Func(id, name, ps, gen2(rng, depth + 1, next_id, budget)));
+      }
+      12 if depth < 4 => {
+        *next_id += 1;
+        let p = if rng.chance(2, 3) { Some(rng.below(POOL.len())) } else { None };
+        out.push(M2::Catch(id, p, gen2(rng, depth + 1, next_id, budget)));
+      }
+      13 if depth < 4 => {
+        *next_id += 1;
+        out.push(M2::ForLet(id, rng.below(POOL.len()), gen2(rng, depth + 1, next_id, budget)));
+      }
+      _ => out.push(M2::Ref(k)),
+    }
+  }
+  out
+}
+fn m2_json(is: &[M2]) -> serde_json::Value {
+  serde_json::Value::Array(
+    is.iter()
+      .map(|i| match i {
+        M2::Ref(x) => json!(["ref", x]),
+        M2::Key(x) => json!(["key", x]),
+        M2::Let(x) => json!(["let", x]),
+        M2::Var(x) => json!(["var", x]),
+        M2::Block(id, b) => json!(["block", id, m2_json(b)]),
+        M2::Func(id, nm, ps, b) => json!(["func", id, nm, ps, m2_json(b)]),
+        M2::Catch(id, p, b) => json!(["catch", id, p, m2_json(b)]),
+        M2::ForLet(id, x, b) => json!(["forlet", id, x, m2_json(b)]),
+      })
+      .collect(),
+  )
+}
+/// occurrences: (is declaration, name, scope id of the binding as the model names it); `fscope` = id of the enclosing
+/// function scope (0 = program), `scope` = id of the innermost scope
+fn render2(is: &[M2], scope: usize, fscope: usize, rng: &mut Rng, out: &mut String, occ: &mut Vec<(bool, usize, serde_json::Value)>) {
+  for i in is {
+    match i {
+      M2::Ref(x) => {
+        occ.push((false, *x, json!(null)));
+        out.push_str(&format!("{}.log(1);\n", pool_name(*x)));
+      }
+      M2::Key(x) => out.push_str(&format!("({{ {}: 1 }});\n", pool_name(*x))),
+      M2::Let(x) => {
+        occ.push((true, *x, json!(["scope", scope])));
+        let n = pool_name(*x);
+        match rng.below(4) {
+          0 => out.push_str(&format!("let {} = 1;\n", n)),
+          1 => out.push_str(&format!("const {} = 1;\n", n)),
+          2 => out.push_str(&format!("class {} {{}}\n", n)),
+          _ => out.push_str(&format!("let {};\n", n)),
+        }
+      }
+      M2::Var(x) => {
+        occ.push((true, *x, json!(["scope", fscope])));
+        out.push_str(&format!("var {}{};\n", pool_name(*x), if rng.chance(1, 2) { " = 1" } else { "" }));
+      }
+      M2::Block(id, b) => {
+        out.push_str("{\n");
+        render2(b, *id, fscope, rng, out, occ);
+        out.push_str("}\n");
+      }
+      M2::Func(id, nm, ps, b) => {
+        let plist: Vec<&str> = ps.iter().map(|p| pool_name(*p)).collect();
+        match nm {
+          Some(n) => {
+            // a named function (or class-like) *expression*: the name is bound only inside
+            occ.push((true, *n, json!(["head", id])));
+            for p in ps {
+              occ.push((true, *p, json!(["scope", id])));
+            }
+            out.push_str(&format!("(function {}({}) {{\n", pool_name(*n), plist.join(", ")));
+            render2(b, *id, *id, rng, out, occ);
+            out.push_str("});\n");
+          }
+          None => {
+            for p in ps {
+              occ.push((true, *p, json!(["scope", id])));
+            }
+            match rng.below(3) {
+              0 => out.push_str(&format!("function fn{}({}) {{\n", id, plist.join(", "))),
+              1 => out.push_str(&format!("const fn{} = ({}) => {{\n", id, plist.join(", "))),
+              _ => out.push_str(&format!("const fn{} = function ({}) {{\n", id, plist.join(", "))),
+            }
+            render2(b, *id, *id, rng, out, occ);
+            out.push_str("};\n");
+          }
+        }
+      }
+      M2::Catch(id, p, b) => {
+        match p {
+          Some(p) => {
+            occ.push((true, *p, json!(["scope", id])));
+            out.push_str(&format!("try {{ }} catch ({}) {{\n", pool_name(*p)));
+          }
+          None => out.push_str("try { } catch {\n"),
+        }
+        render2(b, *id, fscope, rng, out, occ);
+        out.push_str("}\n");
+      }
+      M2::ForLet(id, x, b) => {
+        occ.push((true, *x, json!(["head", id])));
+        let kw = ["const", "let"][rng.below(2)];
+        match rng.below(3) {
+          0 => out.push_str(&format!("for ({} {} of xs) {{\n", kw, pool_name(*x))),
+          1 => out.push_str(&format!("for ({} {} in xs) {{\n", kw, pool_name(*x))),
+          _ => out.push_str(&format!("for (let {} = 0; ; ) {{\n", pool_name(*x))),
+        }
+        render2(b, *id, fscope, rng, out, occ);
+        out.push_str("}\n");
+      }
+    }
+  }
+}
+
+fn run_corr2(out: &mut Out, rng: &mut Rng, count: usize) {
+  let console = mk_linter(rules_by_codes(&["no-console".to_string()]), &Words::default());
+  let mut done = 0;
+  let mut tries = 0;
+  while done < count && tries < count * 30 {
+    tries += 1;
+    let mut crng = rng.fork();
+    let mut next_id = 1;
+    let mut budget = 6 + crng.below(50);
+    let prog = gen2(&mut crng, 0, &mut next_id, &mut budget);
+    // program level: like a function without parameters
+    if !(nodup(&m2_lets(&prog)) && disj(&m2_lets(&prog), &m2_vars(&prog)) && m2_wf(&prog)) {
+      out.count("corr2:not-wf-skipped");
+      continue;
+    }
+    done += 1;
+    let mut src = String::from("export {};\n");
+    let mut occ = vec![];
+    render2(&prog, 0, 0, &mut crng, &mut src, &mut occ);
+    let Some((entries, found, _ps)) = impl_entries(&src) else {
+      out.found("C14", "corr2:well-formed-model-program-does-not-parse", &src, json!({"meta": {"src": src}}));
+      continue;
+    };
+    if entries.len() != occ.len() {
+      out.found("C14", "corr2:occurrence-count", &src, json!({"meta": {"src": src}, "expected": occ.len(), "got": entries.len()}));
+      continue;
+    }
+    let reports: Vec<usize> = match lint(&console, &src, "ts") {
+      Outcome::Ok(ds) => ds.iter().filter_map(|d| d.start).filter_map(|s| found.iter().position(|f| f.1 == s)).collect(),
+      _ => vec![],
+    };
+    let decls: Vec<usize> = (0..occ.len()).filter(|k| occ[*k].0).collect();
+    let (ren, entries2) = if !decls.is_empty() {
+      let k = decls[crng.below(decls.len())];
+      let (_, x, t) = occ[k].clone();
+      let id = &found[k].0;
+      let mut spans: Vec<(usize, usize)> = found.iter().filter(|f| f.0 == *id).map(|f| (f.1, f.2)).collect();
+      spans.sort();
+      let mut text2 = src.clone();
+      for (a, b) in spans.iter().rev() {
+        text2.replace_range(*a..*b, "zz");
+      }
+      match impl_entries(&text2) {
+        Some((e2, _, _)) => (json!([t, x, FRESH]), json!(e2)),
+        None => (serde_json::Value::Null, serde_json::Value::Null),
+      }
+    } else {
+      (serde_json::Value::Null, serde_json::Value::Null)
+    };
+    for f in ["var", "catch", "forlet", "named-func"] {
+      let has = match f {
+        "var" => src.contains("var "),
+        "catch" => src.contains("catch"),
+        "forlet" => src.contains("for ("),
+        _ => src.contains("(function "),
+      };
+      if has {
+        out.count(&format!("corr2:has-{}", f));
+      }
+    }
+    out.case(json!({"m": "scope2", "prog": m2_json(&prog), "ren": ren, "g": 0}), json!({"entries": entries, "reports": reports, "renamed": entries2, "wf": true}), json!({"src": src}));
+  }
+}
+
 pub fn run(args: &Args) {
   let mut out = Out::new(&args.out, "scope");
   let mut rng = Rng::new(args.seed ^ 0x5C0FE);
@@ -913,6 +1180,7 @@ pub fn run(args: &Args) {
   }
   if which.contains("corr") {
     run_corr(&mut out, &mut rng, args.count);
+    run_corr2(&mut out, &mut rng, args.count);
   }
   out.finish();
 }
